@@ -147,6 +147,30 @@ def contract(draw):
     c = aseq.copy()
     if c != aseq or str(c.sequence) != text or annot_state(c.annotation) != annot_state(aseq.annotation):
         return f"{desc}.copy() differs from the original"
+    # ... and independent of it, in both directions, for the annotation, its slices and the annotated sequence
+    before = annot_state(aseq.annotation)
+    extra = Feature("verif_extra", [Location(start, start)], {"note": "added to a copy"})
+    for what, make in (("AnnotatedSequence.copy().annotation", lambda: aseq.copy().annotation), ("Annotation.copy()", lambda: aseq.annotation.copy()),
+                       ("slice [:] of the annotation", lambda: aseq.annotation[:]), ("the annotation of the slice [:]", lambda: aseq[:].annotation),
+                       ("Annotation(annotation.get_features())", lambda: Annotation(aseq.annotation.get_features()))):
+        other = make()
+        other.add_feature(extra)
+        if annot_state(aseq.annotation) != before:
+            return f"{desc}: add_feature() on {what} changed the original annotation"
+        if feats:
+            other.del_feature(feats[0])
+            if annot_state(aseq.annotation) != before:
+                return f"{desc}: del_feature() on {what} changed the original annotation"
+    snap = aseq.annotation.copy()
+    aseq.annotation.add_feature(extra)
+    if annot_state(snap) != before or annot_state(c.annotation) != before:
+        return f"{desc}: add_feature() on the original changed an earlier copy"
+    aseq.annotation.del_feature(extra)
+    given = set(feats)
+    ann = Annotation(given)
+    ann.add_feature(extra)
+    if extra in given:
+        return f"{desc}: Annotation(set) keeps the caller's set: add_feature() changed it"
     return None
 
 
